@@ -13,7 +13,9 @@ use rsdd::builder::bdd::RobddBuilder;
 use rsdd::builder::cache::AllIteTable;
 use rsdd::builder::BottomUpBuilder;
 use rsdd::constants::primes;
-use rsdd::repr::{BddPtr, Cnf, DDNNFPtr, Literal, VarLabel, VarOrder, WmcParams};
+use rsdd::builder::decision_nnf::{DecisionNNFBuilder, StandardDecisionNNFBuilder};
+use rsdd::builder::sdd::CompressionSddBuilder;
+use rsdd::repr::{BddPtr, Cnf, DDNNFPtr, DTree, Literal, SddPtr, VTree, VarLabel, VarOrder, WmcParams};
 use rsdd::serialize::BDDSerializer;
 use rsdd::util::semirings::{Complex, FiniteField, Polynomial, RealSemiring, Semiring, MAX_COEFFS};
 use std::collections::{BTreeMap, HashMap};
@@ -93,6 +95,15 @@ extern "C" {
     fn polynomial_len(p: *mut Polynomial<RealSemiring>) -> usize;
     fn polynomial_get_coeffs(p: *mut Polynomial<RealSemiring>, buffer: *mut f64, max_len: usize) -> usize;
     fn bdd_wmc_poly(b: *mut BP, w: *mut WmcParams<Polynomial<RealSemiring>>) -> *mut Polynomial<RealSemiring>;
+    fn cnf_from_dimacs(s: *const c_char) -> *const Cnf;
+    fn cnf_min_fill_order(cnf: *mut Cnf) -> *mut VarOrder;
+    fn dtree_from_cnf(cnf: *const Cnf, elim_order: *const VarOrder) -> *mut DTree;
+    fn vtree_from_dtree(dtree: *const DTree) -> *mut VTree;
+    fn sdd_builder_new(vtree: *mut VTree) -> *mut c_void;
+    fn sdd_builder_compile_cnf(builder: *const c_void, cnf: *const Cnf) -> *mut SddPtr<'static>;
+    fn sdd_wmc(sdd: *const SddPtr<'static>, wmc: *const WmcParams<RealSemiring>) -> f64;
+    fn ddnnf_builder_new(order: *mut VarOrder) -> *mut c_void;
+    fn ddnnf_builder_compile_cnf_topdown(builder: *const c_void, cnf: *const Cnf) -> *mut BP;
 }
 
 pub struct FfiWorld;
@@ -119,11 +130,13 @@ const F_JSON: u8 = 19;
 const F_PRINT: u8 = 20;
 const F_SET_WEIGHT: u8 = 21;
 const F_SCRATCH: u8 = 22;
-const NK: usize = 23;
+const F_PIPELINE: u8 = 23;
+const NK: usize = 24;
 const KN: [&str; NK] = [
     "clause", "bdd_var", "bdd_new_var", "bdd_new_label+bdd_var", "bdd_true/false", "bdd_negate", "bdd_and", "bdd_or", "bdd_ite", "bdd_compose",
     "robdd_builder_compile_cnf", "bdd_eq", "bdd_is_true/false/const", "bdd_topvar/low/high", "bdd_count_nodes", "robdd_model_count", "bdd_wmc",
     "bdd_wmc_complex", "bdd_wmc_poly", "bdd_to_json", "print_bdd", "wmc_param_*_set_weight", "bdd_(set_|clear_)scratch",
+    "cnf_from_dimacs/min_fill_order/dtree/vtree/sdd_builder/ddnnf_builder pipeline",
 ];
 
 fn resolve(arg: i64, n: usize) -> usize {
@@ -418,6 +431,83 @@ fn run(plan: &Plan, ctx: &mut Ctx) -> R {
                     let v = op.a[0].unsigned_abs() as usize % nvars;
                     set_weights(ctx, &mut wt, v as u64, &mut wr)?;
                 }
+                F_PIPELINE => {
+                    // CNF text -> min-fill order -> dtree -> vtree -> SDD compile + count, and top-down compile + count
+                    let g: Vec<Vec<(usize, bool)>> = groups[op.a[0].unsigned_abs() as usize % 3].iter().filter(|c| !c.is_empty()).cloned().collect();
+                    if g.is_empty() {
+                        continue;
+                    }
+                    let nv = g.iter().flat_map(|c| c.iter().map(|(v, _)| v + 1)).max().unwrap();
+                    let mut text = format!("p cnf {} {}\n", nv, g.len());
+                    for c in g.iter() {
+                        for (v, p) in c {
+                            text.push_str(&format!("{}{} ", if *p { "" } else { "-" }, v + 1));
+                        }
+                        text.push_str("0\n");
+                    }
+                    // the native sequence first; if it panics the C wrapper would do the same (that would be C14/C05, not C18)
+                    let native_side = std::panic::catch_unwind(|| {
+                        let cnf = Cnf::from_dimacs(&text);
+                        let ord = cnf.min_fill_order();
+                        let dt = DTree::from_cnf(&cnf, &ord);
+                        let vt = VTree::from_dtree(&dt);
+                        (cnf, ord, dt, vt)
+                    });
+                    let (ncnf, nord, ndt, nvt) = match native_side {
+                        Ok(x) => x,
+                        Err(_) => {
+                            ctx.count("pipeline-native-sequence-panicked", 1);
+                            continue;
+                        }
+                    };
+                    let ctext = std::ffi::CString::new(text.clone()).unwrap();
+                    let ccnf = cnf_from_dimacs(ctext.as_ptr()) as *mut Cnf;
+                    ctx.check("C18", "ffi-cnf-from-dimacs", *ccnf == ncnf, || format!("cnf_from_dimacs differs from Cnf::from_dimacs on {text:?}"))?;
+                    let cord = cnf_min_fill_order(ccnf);
+                    ctx.check("C18", "ffi-min-fill-order", format!("{}", *cord) == format!("{}", nord), || format!("cnf_min_fill_order = {}, native = {}", *cord, nord))?;
+                    let cdt = dtree_from_cnf(ccnf, cord);
+                    ctx.check("C18", "ffi-dtree", format!("{:?}", *cdt) == format!("{:?}", ndt), || "dtree_from_cnf differs from DTree::from_cnf".to_string())?;
+                    let cvt = vtree_from_dtree(cdt);
+                    ctx.check("C18", "ffi-vtree", cvt.is_null() == nvt.is_none() && (cvt.is_null() || Some(&*cvt) == nvt.as_ref()), || "vtree_from_dtree differs from VTree::from_dtree".to_string())?;
+                    ctx.ev(300 + kind as u64, &[g.len() as u64, nv as u64, cvt.is_null() as u64]);
+                    if let Some(nvt) = nvt {
+                        let native_sdd = std::panic::catch_unwind(|| {
+                            let nb: &'static CompressionSddBuilder<'static> = Box::leak(Box::new(CompressionSddBuilder::new(nvt.clone())));
+                            let ns = nb.compile_cnf(&ncnf);
+                            (ns, ns.unsmoothed_wmc(&wt.n_real).0)
+                        });
+                        if let Ok((ns, nw)) = native_sdd {
+                            let cb = sdd_builder_new(cvt);
+                            let cs = sdd_builder_compile_cnf(cb, ccnf);
+                            let cw = sdd_wmc(cs, wt.c_real);
+                            let (t1, t2) = (crate::worlds::sdd::walk(*cs, &mut BTreeMap::new()), crate::worlds::sdd::walk(ns, &mut BTreeMap::new()));
+                            ctx.check("C18", "ffi-sdd-compile", t1 == t2 && crate::worlds::sdd::sig(*cs, &mut BTreeMap::new()) == crate::worlds::sdd::sig(ns, &mut BTreeMap::new()), || {
+                                format!("sdd_builder_compile_cnf returned an SDD denoting {}, native compile_cnf one denoting {}", tt::show(t1), tt::show(t2))
+                            })?;
+                            ctx.check("C18", "ffi-wmc", cw.to_bits() == nw.to_bits(), || format!("sdd_wmc = {cw}, native unsmoothed_wmc = {nw}"))?;
+                        } else {
+                            ctx.count("pipeline-native-sequence-panicked", 1);
+                        }
+                    }
+                    // top-down
+                    let native_td = std::panic::catch_unwind(|| {
+                        let nb: &'static StandardDecisionNNFBuilder<'static> = Box::leak(Box::new(StandardDecisionNNFBuilder::new(ncnf.min_fill_order())));
+                        let np_ = nb.compile_cnf_topdown(&ncnf);
+                        (np_, np_.unsmoothed_wmc(&wt.n_real).0)
+                    });
+                    if let Ok((ntd, nw)) = native_td {
+                        let cb = ddnnf_builder_new(cnf_min_fill_order(ccnf));
+                        let ctd = ddnnf_builder_compile_cnf_topdown(cb, ccnf);
+                        let cw = bdd_wmc(ctd, wt.c_real);
+                        let (t1, t2) = (wb::walk_raw(*ctd, &mut BTreeMap::new()), wb::walk_raw(ntd, &mut BTreeMap::new()));
+                        ctx.check("C18", "ffi-ddnnf-compile", t1 == t2 && wb::sig(*ctd, &mut BTreeMap::new()) == wb::sig(ntd, &mut BTreeMap::new()), || {
+                            format!("ddnnf_builder_compile_cnf_topdown returned a diagram denoting {}, the native one denotes {}", tt::show(t1), tt::show(t2))
+                        })?;
+                        ctx.check("C18", "ffi-wmc", cw.to_bits() == nw.to_bits(), || format!("bdd_wmc of the top-down result = {cw}, native = {nw}"))?;
+                    } else {
+                        ctx.count("pipeline-native-sequence-panicked", 1);
+                    }
+                }
                 F_SCRATCH => {
                     if !np[x].is_const() {
                         let val = op.a[1].unsigned_abs() as usize;
@@ -464,7 +554,7 @@ impl World for FfiWorld {
         cfg.insert("via_linear".into(), c.below(2) as i64);
         cfg.insert("order_idx".into(), c.below(720) as i64);
         cfg.insert("wseed".into(), (c.next() >> 2) as i64);
-        cfg.insert("table_cap".into(), *c.pick(&[0i64, 4, 8, 16, 64, 64]));
+        cfg.insert("table_cap".into(), *c.pick(&[4i64, 8, 16, 64, 64, 256]));
         cfg.insert("place_off".into(), (p.below(4096) * 16) as i64);
         let mut rates = [0u16; NUM_SITES];
         if c.below(3) == 0 {
@@ -478,7 +568,7 @@ impl World for FfiWorld {
             ops.push(Op { c: o.below(3) as u8, k: K_CLAUSE, a: gen_clause(&mut o, n0) });
         }
         let mut w = [0u32; NK];
-        let base = [0u32, 8, 2, 2, 2, 5, 9, 8, 7, 3, 2, 4, 3, 4, 4, 4, 5, 4, 4, 3, 3, 2, 2];
+        let base = [0u32, 8, 2, 2, 2, 5, 9, 8, 7, 3, 2, 4, 3, 4, 4, 4, 5, 4, 4, 3, 3, 2, 2, 2];
         for k in 1..NK {
             w[k] = if c.below(5) == 0 { 0 } else { base[k] * (1 + c.below(3) as u32) };
         }
